@@ -28,7 +28,7 @@ func vtheineGoroutines() int {
 }
 
 func vsettle(want int) int {
-	deadline := time.Now().Add(3 * time.Second)
+	deadline := time.Now().Add(10 * time.Second)
 	for {
 		n := vtheineGoroutines()
 		if n <= want || time.Now().After(deadline) {
